@@ -18,6 +18,80 @@
 #include <utility>
 #include <vector>
 
+// ------------------------------------------------------------------ element types with their own namespace-scope swap
+// (own namespace: only argument-dependent lookup finds these swaps)
+namespace c20adl {
+struct Counters {
+    int swaps = 0, move_ctor = 0, move_assign = 0, copy_ctor = 0, copy_assign = 0;
+    void clear() { *this = Counters{}; }
+};
+inline Counters& counters()
+{
+    static Counters c;
+    return c;
+}
+// Sw: movable and copyable, but its own swap is observably different from move-swapping: it exchanges only the payload,
+// keeps the identity, marks both objects and counts the call.
+struct Sw {
+    int id      = 0;
+    int payload = 0;
+    int marks   = 0; // how often this object took part in its own swap
+    Sw()        = default;
+    Sw(int i, int p) : id(i), payload(p) { }
+    Sw(Sw const& o) : id(o.id), payload(o.payload), marks(o.marks) { ++counters().copy_ctor; }
+    Sw(Sw&& o) noexcept : id(o.id), payload(o.payload), marks(o.marks) { ++counters().move_ctor; }
+    Sw& operator=(Sw const& o)
+    {
+        id      = o.id;
+        payload = o.payload;
+        marks   = o.marks;
+        ++counters().copy_assign;
+        return *this;
+    }
+    Sw& operator=(Sw&& o) noexcept
+    {
+        id      = o.id;
+        payload = o.payload;
+        marks   = o.marks;
+        ++counters().move_assign;
+        return *this;
+    }
+    friend bool operator==(Sw const& a, Sw const& b) { return a.id == b.id && a.payload == b.payload; }
+};
+inline void swap(Sw& a, Sw& b) noexcept
+{
+    ++counters().swaps;
+    int t     = a.payload;
+    a.payload = b.payload;
+    b.payload = t;
+    ++a.marks;
+    ++b.marks;
+}
+// NoMove: swappable through its own swap only (neither copyable nor movable)
+struct NoMove {
+    int payload;
+    int marks = 0;
+    explicit NoMove(int p) : payload(p) { }
+    NoMove(NoMove const&)            = delete;
+    NoMove& operator=(NoMove const&) = delete;
+};
+inline void swap(NoMove& a, NoMove& b) noexcept
+{
+    ++counters().swaps;
+    int t     = a.payload;
+    a.payload = b.payload;
+    b.payload = t;
+    ++a.marks;
+    ++b.marks;
+}
+inline std::string show(Sw const& s) { return "{id=" + std::to_string(s.id) + ",payload=" + std::to_string(s.payload) + ",marks=" + std::to_string(s.marks) + "}"; }
+inline std::string show(Counters const& c)
+{
+    return "adl-swap=" + std::to_string(c.swaps) + " move-ctor=" + std::to_string(c.move_ctor) + " move-assign=" + std::to_string(c.move_assign)
+         + " copy-ctor=" + std::to_string(c.copy_ctor) + " copy-assign=" + std::to_string(c.copy_assign);
+}
+} // namespace c20adl
+
 namespace c20 {
 
 // ------------------------------------------------------------------ type names (for obs/exp strings and symptoms)
